@@ -1,23 +1,69 @@
 /*@UNIT
 {
-  "property": "C13",
-  "unit": "mul_2d_exact",
-  "function": "pstm_mul_2d",
-  "source": "crypto/math/pstm.c",
-  "keep_bodies": ["pstm_copy", "pstm_lshd", "pstm_clamp", "pstm_grow"],
-  "assumed": ["realloc (model c13_realloc in c13x.h: NULL, or a distinct constant-size block holding the old contents)"],
-  "mode": "bounded",
-  "bounds": "operand of at most NDIG digits (quick 3, thorough 4), bit count 64*NDSHIFT + 0..63 with NDSHIFT enumerated (quick 0, thorough 0..2), every digit value and sign, c distinct from a or c == a",
-  "defs_quick": ["NDIG=3"],
-  "defs_thorough": ["NDIG=4"],
-  "unwind_quick": 10,
-  "unwind_thorough": 11,
-  "object_bits": 8,
-  "cases": [{"name": "bits_in_place", "defs": ["ALIAS_CA=1", "NDSHIFT=0"]}, {"name": "bits_distinct", "defs": ["NDSHIFT=0"]},
-            {"name": "digit1_in_place", "defs": ["ALIAS_CA=1", "NDSHIFT=1"], "tier": "thorough"}, {"name": "digit1_distinct", "defs": ["NDSHIFT=1"], "tier": "thorough"},
-            {"name": "digit2_distinct", "defs": ["NDSHIFT=2"], "tier": "thorough"}],
-  "native_replay": true,
-  "timeout": 400
+ "property": "C13",
+ "unit": "mul_2d_exact",
+ "function": "pstm_mul_2d",
+ "source": "crypto/math/pstm.c",
+ "keep_bodies": [
+  "pstm_copy",
+  "pstm_lshd",
+  "pstm_clamp",
+  "pstm_grow"
+ ],
+ "assumed": [
+  "realloc (model c13_realloc in c13x.h: NULL, or a distinct constant-size block holding the old contents)"
+ ],
+ "mode": "bounded",
+ "bounds": "operand of at most NDIG digits (quick 3, thorough 4), bit count 64*NDSHIFT + 0..63 with NDSHIFT enumerated (quick 0, thorough 0..2), every digit value and sign, c distinct from a or c == a",
+ "defs_quick": [
+  "NDIG=3"
+ ],
+ "defs_thorough": [
+  "NDIG=4"
+ ],
+ "unwind_quick": 10,
+ "unwind_thorough": 11,
+ "object_bits": 8,
+ "cases": [
+  {
+   "name": "bits_in_place",
+   "defs": [
+    "ALIAS_CA=1",
+    "NDSHIFT=0"
+   ]
+  },
+  {
+   "name": "bits_distinct",
+   "defs": [
+    "NDSHIFT=0"
+   ]
+  },
+  {
+   "name": "digit1_in_place",
+   "defs": [
+    "ALIAS_CA=1",
+    "NDSHIFT=1"
+   ],
+   "tier": "thorough"
+  },
+  {
+   "name": "digit1_distinct",
+   "defs": [
+    "NDSHIFT=1"
+   ],
+   "tier": "thorough"
+  },
+  {
+   "name": "digit2_distinct",
+   "defs": [
+    "NDSHIFT=2"
+   ],
+   "tier": "thorough"
+  }
+ ],
+ "native_replay": true,
+ "timeout": 400,
+ "tier": "thorough"
 }
 @*/
 /* C13.mul_2d_exact  c = a * 2^b exactly (static helper of pstm_read_unsigned_bin and pstm_div), full
